@@ -30,7 +30,7 @@ ASSUMPTIONS = [
     "the shift parameter is clipped at |a| = 0.45, the default documented in BeckeWeights._calculate_alpha",
     "an element without radius takes the radius of Z-1, else Z-2, from the table in use (Bragg-Slater updated by the user's dict), as the library's warning documents",
     "the shipped pro-atom tables (data/proatoms/a00Z.npz: r, dn) are data; between the knots the pro-atom density is the natural cubic spline the module documents",
-    "floating-point error model: a weight may differ from the exact value by C*eps*M*1.9*1.5^order*(1+|x|max/min R_AB), C=64 (definition), C=100 (rigid motion); identities (bounds, sum, nuclei, route agreement) 64*M*eps",
+    "floating-point error model: a weight may differ from the exact value by C*eps*M*1.9*1.5^order*(1+|x|max/min R_AB)/min(1, sum_B P_B), C=64 (definition), C=100 (rigid motion); the 1/sum P factor is the amplification by the normalisation (added after a thorough run hit 1.15x the tolerance without it in an 8-atom cluster); identities (bounds, sum, nuclei, route agreement) 64*M*eps",
     "Hirshfeld error model: each spline value carries 4096*eps*(data magnitude damped by 0.3 per knot of distance); points where this makes the share uncertain by > 1e-6 (promolecular density ~ 0) are not compared",
     "warnings emitted by the library are ignored",
 ]
@@ -206,7 +206,7 @@ def body_becke(case, ctx):
 
     # ---- definition ----------------------------------------------------------
     ref = becke_ref.weights(pts, at, radii, order)  # (n, m)
-    cond = becke_ref.condition(pts, at, order)  # (n,)
+    cond = becke_ref.condition(pts, at, order, radii)  # (n,)
     tol_def = C_DEF * EPS * cond
     tol_id = 64.0 * m * EPS  # same arithmetic on a sub-array / another order of a product of m factors
     owner = np.repeat(np.arange(m), np.diff(idx))
@@ -265,7 +265,7 @@ def body_becke(case, ctx):
     mo = case["motion"]
     rot = rotation(mo["axis"], mo["angle"])
     at_m, pts_m = move(at, rot, mo["shift"]), move(pts, rot, mo["shift"])
-    tol_r = C_RIGID * EPS * (cond + becke_ref.condition(pts_m, at_m, order))
+    tol_r = C_RIGID * EPS * (cond + becke_ref.condition(pts_m, at_m, order, radii))
     call_m = bw(pts_m, at_m, atnums, idx)
     ctx.close(call_m, call, tol_r, "rigid-motion-call", f"angle={mo['angle']} shift={mo['shift']} M={m} order={order}")
     a0 = case["dseed"] % m
